@@ -74,6 +74,21 @@ pub struct MangedTransport {
 }
 
 impl MangedTransport {
+    /// Start a new reference count, to be used when the previous one ran out
+    /// without the task owning the transport having noticed it yet
+    pub fn renew(&mut self) -> (TpHandle, DropNotifier) {
+        let (owner, notifier) = ref_counter();
+
+        self.state = ManagedTransportState::Used(owner.downgrade());
+
+        let transport = TpHandle {
+            _ref_guard: Some(owner),
+            transport: self.transport.clone(),
+        };
+
+        (transport, notifier)
+    }
+
     pub fn try_get(&mut self) -> Option<TpHandle> {
         match &self.state {
             ManagedTransportState::Used(weak_tx) => {
